@@ -1,5 +1,6 @@
 import Driver.Proto
 import ScrapliModel.Netconf.Decode
+import ScrapliModel.Generated.Patterns
 namespace Driver.C02
 open Scrapli Scrapli.Netconf
 
@@ -21,6 +22,18 @@ def asciiEdges (b : Bytes) : Bool :=
   | [] => true
   | x :: t => x < 128 && ((x :: t).getLast?.getD 0) < 128
 
+def frame10 (decl p w2 w1 : String) : String :=
+  match fromHex p, fromHex w2, fromHex w1 with
+  | some p, some ws2, some ws1 =>
+    let hdr := if decl == "1" then Gen.Response.xmlHeader else []
+    let raw := ws1 ++ hdr ++ p ++ Gen.Response.v1Dot0Delim ++ ws2
+    let payload := trimSpace p
+    let dom := allSpace ws1 && allSpace ws2 && asciiEdges p &&
+      (decl == "1" || !hasPrefix (trimLeft isSpaceB p ++ Gen.Response.v1Dot0Delim) Gen.Response.xmlHeader)
+    let thm := dom
+    s!"{b2s dom} {toHex raw} {b2s (containsAny markers payload)} {toHex payload} {b2s thm}"
+  | _, _, _ => "bad-op"
+
 def handleC02 : List String → String
   | ["raw", v, h] =>
     match ver v, fromHex h with
@@ -35,16 +48,22 @@ def handleC02 : List String → String
       let dom := allSpace ws1 && allSpace ws2 && legalChunks cs && asciiEdges (trimPrefix cs.flatten Gen.Response.xmlHeader)
       s!"{b2s dom} {toHex raw} {b2s (containsAny markers payload)} {toHex payload}"
     | _, _, _ => "bad-op"
-  | ["frame", "1.0", decl, p, w2] =>
-    match fromHex p, fromHex w2 with
-    | some p, some ws2 =>
-      let hdr := if decl == "1" then Gen.Response.xmlHeader else []
-      let raw := hdr ++ p ++ Gen.Response.v1Dot0Delim ++ ws2
-      let payload := trimSpace p
-      let dom := allSpace ws2 && asciiEdges p &&
-        (decl == "1" || !hasPrefix (p ++ Gen.Response.v1Dot0Delim ++ ws2) Gen.Response.xmlHeader)
-      s!"{b2s dom} {toHex raw} {b2s (containsAny markers payload)} {toHex payload}"
-    | _, _ => "bad-op"
+  | ["frame", "1.0", decl, p, w2] => frame10 decl p w2 "-"
+  -- with white space in front of the message as well (the LF that real servers send behind the
+  -- previous message's delimiter): answers dom raw spec_failed spec_result thm, where thm says
+  -- whether a proved theorem covers the case (decode10_frame10 / decode10_frame10_decl: since fix
+  -- 72d4808 of finding C02-F21 every case in the domain)
+  | ["frame", "1.0", decl, p, w2, w1] => frame10 decl p w2 w1
+  -- ErrorMessages / WarningErrorMessages of Record(raw): hand-written scan, and whether the regex
+  -- engine on the extracted pattern rpcSingleErrors finds the same blocks
+  | ["msgs", h] =>
+    match fromHex h with
+    | some raw =>
+      let (e, w) := messages markers raw
+      let blocks := errorBlocks (raw.length + 1) raw
+      let rx := (Rx.findAll Gen.Rx.Response.«rpcSingleErrors» raw).map fun (a, z, _) => (raw.drop a).take (z - a)
+      s!"{showHexList e} {showHexList w} {b2s (blocks == rx)}"
+    | none => "bad-op"
   | _ => "bad-op"
 
 end Driver.C02
